@@ -67,17 +67,34 @@ def _d1(chk, fb):
     chk.floor("D1", "value reads of the node/edge tables through operator[]", n, 1)
 
 
-def _guarded_calls(f, name):
-    """calls of helper `name` in f with (argument texts, whether under '!directed_')"""
+def _guarded_calls(fb, f, name, depth=1):
+    """calls of helper `name` made by f (directly, or inside a same-class helper that f calls: arguments translated back to
+    f's terms) with (argument texts, whether only reachable when the graph is undirected)"""
     cfg = f.cfg
+    sub = local_inits(f)
+
+    def undirected_edge(a, b):
+        for t, tr, nd in e1.edge_facts(cfg, a, b):
+            rt = render(nd, sub).replace("this.", "").replace(" ", "")
+            if (rt == "directed_" and tr is False) or (rt in ("!directed_", "(!directed_)") and tr is True):
+                return True
+        return False
+    und_edges = {(a, b) for a in cfg.blocks for b in cfg.succ[a] if undirected_edge(a, b)}
     out = []
     for c in f.calls():
-        if c["callee"]["name"] != name:
+        blk = cfg.stmt_block(c)
+        if blk is None:
             continue
-        # facts that hold on every path to the call
-        und = not e1.path_exists(cfg, cfg.entry, cfg.stmt_block(c), avoid_edges={(a, b) for a in cfg.blocks for b in cfg.succ[a]
-                                                                                  if any((t == "directed_" and tr is False) or (t == "!directed_" and tr is True) for t, tr, _ in e1.edge_facts(cfg, a, b))})
-        out.append(([render(a) for a in f.args(c)[:2]], und))
+        und = not e1.path_exists(cfg, cfg.entry, blk, avoid_edges=und_edges)
+        if c["callee"]["name"] == name:
+            out.append(([render(a, sub) for a in f.args(c)[:2]], und))
+        elif depth > 0 and c["callee"].get("inrepo") and c["callee"].get("cls") == G and c["callee"]["name"] != f.name:
+            for t in fb.targets(c):
+                if t.body is None or t.cfg is None:
+                    continue
+                ren = {p_["name"]: render(a, sub) for p_, a in zip(t.params, f.args(c))}
+                for args, u2 in _guarded_calls(fb, t, name, depth - 1):
+                    out.append(([ren.get(x, x) for x in args], und or u2))
     return out
 
 
@@ -90,25 +107,34 @@ def _d2(chk, fb):
             continue
         for lk in links:
             a, b = lk.params[0]["name"], lk.params[1]["name"]
-            lc = _guarded_calls(lk, helper)
+            lc = _guarded_calls(fb, lk, helper)
             fwd = [x for x in lc if x[0] == [a, b] and not x[1]]
             mir = [x for x in lc if x[0] == [b, a] and x[1]]
             if fwd and mir:
                 chk.proved("D2", lk.key, "link-mirrors-when-undirected", lk.loc(), "%s(%s,%s) always, %s(%s,%s) when undirected" % (helper, a, b, helper, b, a))
+            elif not lc:
+                chk.unknown("D2", lk.key, "link-mirrors-when-undirected", lk.loc(), "no call of %s found in link or in the helpers it calls" % helper)
+            elif fwd and not any(x[0] == [b, a] for x in lc):
+                chk.refuted("D2", lk.key, "link-mirrors-when-undirected", lk.loc(), "link records %s(%s,%s) only: on an undirected graph the reverse relation is missing from the node table" % (helper, a, b),
+                            witness={"history": "undirected graph: link(a,b); getNeighbors(b) does not list a"})
+            elif fwd and any(x[0] == [b, a] and not x[1] for x in lc):
+                chk.refuted("D2", lk.key, "link-mirrors-when-undirected", lk.loc(), "link records the reverse relation %s(%s,%s) unconditionally, also on directed graphs" % (helper, b, a), witness={"history": "directed graph: link(a,b); getOutgoingNeighbors(b) lists a"})
             else:
-                chk.refuted("D2", lk.key, "link-mirrors-when-undirected", lk.loc(), "link does not record both directions of an undirected edge in the node table (calls: %s)" % lc)
+                chk.unknown("D2", lk.key, "link-mirrors-when-undirected", lk.loc(), "calls of %s not in a recognised arrangement: %s" % (helper, lc))
         a, b = unl.params[0]["name"], unl.params[1]["name"]
-        uc = _guarded_calls(unl, inv)
+        uc = _guarded_calls(fb, unl, inv)
         fwd = [x for x in uc if x[0] == [a, b] and not x[1]]
         mir = [x for x in uc if x[0] == [b, a] and x[1]]
         if fwd and mir:
             chk.proved("D2", unl.key, "unlink-mirrors-when-undirected", unl.loc(), "%s(%s,%s) always, %s(%s,%s) when undirected" % (inv, a, b, inv, b, a))
-        elif fwd:
+        elif fwd and not any(x[0] == [b, a] for x in uc):
             chk.refuted("D2", unl.key, "unlink-mirrors-when-undirected", unl.loc(),
                         "link records an undirected edge in both directions (%s(%s,%s) under '!directed_') but unlink only removes %s(%s,%s): the reverse relation survives and still names the erased edge" % (helper, b, a, inv, a, b),
                         witness={"history": "undirected graph: link(a,b); unlink(a,b); getNeighbors(a) / getNeighbors(b) still list each other"})
-        else:
+        elif not uc and not any(c["callee"].get("inrepo") and c["callee"].get("cls") == G and not c["callee"].get("const") for c in unl.calls()):
             chk.refuted("D2", unl.key, "unlink-removes-relation", unl.loc(), "unlink no longer removes the relation from the node table")
+        else:
+            chk.unknown("D2", unl.key, "unlink-mirrors-when-undirected", unl.loc(), "calls of %s not in a recognised arrangement: %s" % (inv, uc))
 
 
 def _erases(f, table):
@@ -336,6 +362,10 @@ def _d7(chk, fb):
         for t in throws:
             for w in writes:
                 if w is t or f.contains(w, t) or f.contains(t, w):
+                    continue
+                # 'if (table.erase(key) == 0) throw ...': the write is the test itself, and the throwing outcome means nothing was changed
+                gi = f.enclosing(t, ("IfStmt",)) if t["k"] == "CXXThrowExpr" else None
+                if gi is not None and "cond" in gi and f.contains(f.nodes[gi["cond"]], w):
                     continue
                 wb, tb = cfg.stmt_block(w), cfg.stmt_block(t)
                 if wb is None or tb is None:
